@@ -115,6 +115,12 @@ Theorem C04_element_access a00r a00i a01r a01i a10r a10i a11r a11i :
   jones_index_read (OO:=ROps) a00r a00i a01r a01i a10r a10i a11r a11i = l ++ l ++ l ++ l /\
   traits_jones (OO:=ROps) a00r a00i a01r a01i a10r a10i a11r a11i = [4] ++ l ++ l.
 Proof. split; [apply tie_jones_index_read | apply tie_traits_jones]. Qed.
+(* assignment of a real scalar, a complex scalar, another matrix: every element is overwritten *)
+Theorem C04_assignment a00r a00i a01r a01i a10r a10i a11r a11i b00r b00i b01r b01i b10r b10i b11r b11i zr zi r :
+  jones_assign_real (OO:=ROps) a00r a00i a01r a01i a10r a10i a11r a11i r = m2list (m2scale (cofR r) m2id) /\
+  jones_assign_complex (OO:=ROps) a00r a00i a01r a01i a10r a10i a11r a11i zr zi = m2list (m2scale (zr, zi) m2id) /\
+  jones_assign_copy (OO:=ROps) a00r a00i a01r a01i a10r a10i a11r a11i b00r b00i b01r b01i b10r b10i b11r b11i = m2list (M2of a00r a00i a01r a01i a10r a10i a11r a11i).
+Proof. split; [apply tie_jones_assign_real | split; [apply tie_jones_assign_complex | apply tie_jones_assign_copy]]. Qed.
 Print Assumptions C04_is_diagonal.
 Print Assumptions C04_element_access.
 
